@@ -97,10 +97,16 @@ def explore_trace_config(cfg: dict) -> dict:
                     if not a.eq(b) and c._check(a != b) == 'sat':
                         bad.append(f'{nm} vs untraced: cell {n}[{j}] differs')
         # no trace with tracing off, or on the untraced positions
+        pre_sel = cfg.get('trace_prelude')
+        other = (tc + 1) % L if pre_sel is not None else None
         for j in range(L):
             if not mO.trace[j].is_empty() or mO.trace[j].index:
                 bad.append(f'trace written at {j} with tracing off')
-            if j != tc and (not mT.trace[j].is_empty() or mT.trace[j].index):
+            if j == other and j != tc:
+                want_names = mT.names if pre_sel is True else list(pre_sel)
+                if list(mT.trace[j].names) != list(want_names):
+                    bad.append(f'trace of the earlier solve at {j} holds {list(mT.trace[j].names)}, asked for {list(want_names)}')
+            elif j != tc and (not mT.trace[j].is_empty() or mT.trace[j].index):
                 bad.append(f'trace written at position {j} != t')
         # trace content
         tr = mT.trace[tc]
@@ -232,7 +238,12 @@ def replay_trace_concrete(cfg: dict, inp: dict) -> dict:
     for j in range(L):
         if not mO.trace[j].is_empty() or mO.trace[j].index:
             bad.append(f'trace written at position {j} with tracing off (trace=False): labels {list(mO.trace[j].index)}')
-        if j != tc and (not mT.trace[j].is_empty() or mT.trace[j].index):
+        pre_sel = cfg.get('trace_prelude')
+        if pre_sel is not None and j == (tc + 1) % L and j != tc:
+            want_names = mT.names if pre_sel is True else list(pre_sel)
+            if list(mT.trace[j].names) != list(want_names):
+                bad.append(f'trace of the earlier solve at {j} holds {list(mT.trace[j].names)}, asked for {list(want_names)}')
+        elif j != tc and (not mT.trace[j].is_empty() or mT.trace[j].index):
             bad.append(f'trace written at position {j} != t')
     for k in OBS:
         if oO[k] != oU[k]:
@@ -296,6 +307,12 @@ def configs(tier: str):
                                                               offset=offset, finite=False, faults=faults,
                                                               hook_faults=faults and B <= 1, entry=entry, tracer=tracer,
                                                               post_write=(tracer is True)))
+    # an earlier, failed traced solve of another period with ANOTHER selection leaves nothing behind
+    for tracer, pre in ((True, ['X']), (['Y0'], True), ('Y0', ['X', 'Y0']), (['Y0', 'X'], ['Y0'])):
+        for errors, failures in (('raise', 'ignore'), ('skip', 'ignore')):
+            for B in (1, 2):
+                out.append(lf.default_cfg(N=1, B=B, errors=errors, failures=failures, t=1, offset='zero', finite=False, faults=False,
+                                          entry='solve_t', tracer=tracer, trace_prelude=pre))
     # a variable added to the instance at run time is part of "all variables" (trace=True)
     for errors, failures in (('raise', 'ignore'), ('skip', 'ignore')):
         for B in (1, 2):
